@@ -1,0 +1,21 @@
+//go:build verif
+
+package debug
+
+import "github.com/goghcrow/yae/val"
+
+// VerifEntry is one recorded (value, column) pair; column starts at 1.
+type VerifEntry struct {
+	Val *val.Val
+	Col int
+}
+
+// VerifEntries returns a copy of the record in recording order.
+// Read it before Render, which sorts the record in place.
+func (r *Record) VerifEntries() []VerifEntry {
+	out := make([]VerifEntry, len(r.vs))
+	for i, v := range r.vs {
+		out[i] = VerifEntry{v.v, v.col}
+	}
+	return out
+}
